@@ -920,6 +920,33 @@ def order_rule(ck, fb):
     ck.floor("binary_reader_handle_sites", n, 4)
 
 
+def edge_dup_rule(ck, fb):
+    """the readers address edges by their position in the file"""
+    ck.rule("U.count", "every reader creates exactly one entity per stored item: add_edge is called with _allowDuplicates = true (a merged duplicate would shift every later edge handle: range checks against declared/read counts become unsound and a round trip changes the mesh)")
+    entries = reader_entries(fb)
+    pred = reachable(fb, entries)
+    n = 0
+    seen = set()
+    for f in [fb.fns[i] for i in pred]:
+        if not ("/IO/" in f.file or "/FileManager/" in f.file):
+            continue
+        for b, i, x in f.nodes(("call",)):
+            if not x.get("pn", "").endswith("TopologyKernel::add_edge") or b not in f.reach():
+                continue
+            key = (f.file, x.get("ln"))
+            if key in seen:
+                continue
+            seen.add(key)
+            n += 1
+            a = f.resolve(x.get("a", []))
+            third = unwrap(a[2]) if len(a) >= 3 else None
+            while isinstance(third, dict) and third.get("k") in ("defarg", "definit"):
+                third = unwrap(third.get("x"))
+            ok = isinstance(third, dict) and third.get("k") == "lit" and third.get("v") is True and not (len(x.get("a", [])) >= 3 and unwrap(x["a"][2]).get("k") == "defarg")
+            (ck.ok if ok else lambda r, w, t: ck.violate(r, w, t, "U.count:%s" % f.pq))("U.count", f.loc(x), "%s: add_edge(%s) keeps duplicates (third argument true)" % (f.pq.split("::")[-1], estr(a)[:50]))
+    ck.floor("reader_add_edge_sites", n, 2)
+
+
 def result_rules(ck, fb):
     ck.rule("U.result", "in reader code the handle returned by add_face/add_cell is tested for validity and a failed test fails the read (error state / return false / throw): later range checks compare against declared counts, so a silently rejected entity would leave in-range handles dangling")
     entries = reader_entries(fb)
